@@ -76,4 +76,6 @@ void sess_check_conformance(const uint8_t* wire, size_t wire_size, const uint8_t
 void sess_check_lib_roundtrip(const uint8_t* wire, size_t wire_size, const uint8_t* expect, size_t expect_size,
                               const uint8_t* dict, size_t dict_size, int dict_raw, int magicless);
 ZSTD_customMem sess_cmem(void);
+void sess_buf_cache_drop(void);
+void* sess_buf_get(int slot, size_t n);   /* cached exactly-sized guarded buffer (slots 0-7); never free it */
 #endif
